@@ -8,6 +8,7 @@ process and in several processes: every repetition must give the outcome the spe
 MarshalCode bytes must be identical across compilations and after unmarshal/re-marshal.
 """
 import json
+import re
 
 import vlib
 import langlib
@@ -15,6 +16,14 @@ import langlib
 
 def strip(o):
     return {k: v for k, v in (o or {}).items() if k not in ("msg", "msgcps", "tree", "tree_full")}
+
+
+def whole(o):
+    """The observation including the error text (addresses of Go pointers normalised)."""
+    d = {k: v for k, v in (o or {}).items() if k not in ("msgcps", "tree", "tree_full")}
+    if "msg" in d:
+        d["msg"] = re.sub(r"0x[0-9a-f]+", "0x?", d["msg"])
+    return d
 
 
 def run(cx):
@@ -38,7 +47,7 @@ def run(cx):
     batches.append(("random", rp))
 
     # G: constant classes in every position, scaled shapes (Shapes.tla): compared across repetitions / processes only
-    for fam in (("consts", "scale") if not cx.quick() else ("scale",)):
+    for fam in (("consts", "scale", "errors") if not cx.quick() else ("scale", "errors")):
         _, sp = langlib.gen_shapes(cx, fam)
         so = cx.path("shapes_%s.cases.ndjson" % fam)
         cx.run([lang, "render", "-in", sp, "-out", so])
@@ -62,7 +71,7 @@ def run(cx):
                     flags[r["id"]].append("driver:" + str(res.get("k")) + ":" + str(res.get("msg", ""))[:100])
                     continue
                 for v in res["variants"]:
-                    if all(strip(v) != strip(w) for w in variants[r["id"]]):
+                    if all(whole(v) != whole(w) for w in variants[r["id"]]):
                         variants[r["id"]].append(v)
                 if res["compiled"]:
                     hashes[r["id"]].add((res["bytes_len"], res["bytes_hash"]))
@@ -89,7 +98,7 @@ def run(cx):
             if len(variants[cid]) > 1:
                 nondet += 1
                 cx.violation("%s: repeated evaluation of one source gives different outcomes: src=%r outcomes=%s" % (
-                    label, c["src"][:300], json.dumps([strip(v) for v in variants[cid]])[:500]),
+                    label, c["src"][:300], json.dumps([whole(v) for v in variants[cid]])[:700]),
                     {"leg": "repeat-" + label, "src": c["src"], "variants": variants[cid]})
             if len(hashes[cid]) > 1:
                 cx.violation("%s: compiling one source gives different bytecode in different processes: src=%r" % (
